@@ -64,59 +64,77 @@ struct Obs {
   long maxHeld = 0;
 };
 
-std::atomic<long> g_held{0}, g_maxHeld{0}, g_bad{0}, g_opsDone{0};
+// Resources are tagged with the pool that created them: ids 0..3 belong to pool A (index 0),
+// ids 4..7 to pool B (index 1). All monitors are keyed per (pool, resource).
+constexpr int kPoolStride = 4;
+std::atomic<long> g_heldP[2], g_maxHeldP[2];
+std::atomic<int> g_sizeP[2];
+std::atomic<long> g_bad{0}, g_opsDone{0};
 std::atomic<int> g_inAcquire{0};
-std::atomic<int> g_size{0};
 std::string dumpState() {
-  return J().kv("held", g_held.load()).kv("size", g_size.load()).kv("threadsInsideAcquire", g_inAcquire.load()).kv("opsDone", g_opsDone.load()).str();
+  return J().kv("heldA", g_heldP[0].load()).kv("sizeA", g_sizeP[0].load()).kv("heldB", g_heldP[1].load()).kv("sizeB", g_sizeP[1].load())
+      .kv("threadsInsideAcquire", g_inAcquire.load()).kv("opsDone", g_opsDone.load()).str();
 }
 
 void report(const std::string& msg, const J& d, const char* sub) {
   if (g_bad.fetch_add(1, std::memory_order_relaxed) < 4) vrt::violation(msg, d, sub);
 }
 
-// monitor bookkeeping around the real calls
-void onAcquired(Handle& h) {
+// monitor bookkeeping around the real calls; `from` = index of the pool acquire() was called on
+void onAcquired(Handle& h, int from) {
   Res& res = h.get();
-  if (res.magic != Res::kAlive || res.id < 0 || res.id >= g_size.load(std::memory_order_relaxed)) {
+  const int owner = res.id >= 0 ? res.id / kPoolStride : -1;
+  if (res.magic != Res::kAlive || res.id < 0 || res.id >= kMaxRes || res.id % kPoolStride >= g_sizeP[owner].load(std::memory_order_relaxed)) {
     report("acquire() returned something that is not a live pooled resource", J().kv("id", res.id), "bad-resource");
     return;
   }
+  if (owner != from) {
+    report("acquire() handed out a resource that was created by the other pool (a handle returned it to the wrong pool)",
+           J().kv("acquiredFromPool", from).kv("createdByPool", owner).kv("id", res.id), "wrong-pool");
+  }
   int prev = res.holders.fetch_add(1, std::memory_order_relaxed);
   if (prev != 0) report("one resource is held by two Resource handles at once", J().kv("id", res.id).kv("holders", prev + 1), "exclusivity");
-  long now = g_held.fetch_add(1, std::memory_order_relaxed) + 1;
-  if (now > g_size) report("more resources held than the pool's size", J().kv("held", now).kv("size", g_size.load()), "bound");
-  long mx = g_maxHeld.load(std::memory_order_relaxed);
-  while (now > mx && !g_maxHeld.compare_exchange_weak(mx, now, std::memory_order_relaxed)) {
+  long now = g_heldP[owner].fetch_add(1, std::memory_order_relaxed) + 1;
+  long size = g_sizeP[owner].load(std::memory_order_relaxed);
+  if (now > size) report("more resources held than the pool's size", J().kv("pool", owner).kv("held", now).kv("size", size), "bound");
+  long mx = g_maxHeldP[owner].load(std::memory_order_relaxed);
+  while (now > mx && !g_maxHeldP[owner].compare_exchange_weak(mx, now, std::memory_order_relaxed)) {
   }
 }
 void beforeRelease(Handle& h) {
   Res& res = h.get();
   res.holders.fetch_sub(1, std::memory_order_relaxed);
-  g_held.fetch_sub(1, std::memory_order_relaxed);
+  if (res.id >= 0 && res.id < kMaxRes) g_heldP[res.id / kPoolStride].fetch_sub(1, std::memory_order_relaxed);
 }
-Handle acquireMonitored(dispenso::ResourcePool<Res>& pool) {
+Handle acquireMonitored(dispenso::ResourcePool<Res>& pool, int from = 0) {
   g_inAcquire.fetch_add(1, std::memory_order_relaxed);
   Handle h = pool.acquire();
   g_inAcquire.fetch_sub(1, std::memory_order_relaxed);
-  onAcquired(h);
+  onAcquired(h, from);
   return h;
 }
 
-Obs runCase(const Spec& s, long idx) {
-  Obs o;
+void resetMonitors(int sizeA, int sizeB) {
   for (int i = 0; i < kMaxRes; ++i) {
     g_liveById[i] = 0;
     g_destroyedById[i] = 0;
   }
   g_objects = 0;
   g_badMagic = 0;
-  g_held = 0;
-  g_maxHeld = 0;
+  for (int p = 0; p < 2; ++p) {
+    g_heldP[p] = 0;
+    g_maxHeldP[p] = 0;
+  }
+  g_sizeP[0] = sizeA;
+  g_sizeP[1] = sizeB;
   g_bad = 0;
   g_opsDone = 0;
   g_inAcquire = 0;
-  g_size = s.size;
+}
+
+Obs runCase(const Spec& s, long idx) {
+  Obs o;
+  resetMonitors(s.size, 0);
   if (s.hookP > 0) vrt::hookProb(V::kResPoolAfterAcquire, s.hookP);
   std::vector<Counts> counts(static_cast<size_t>(s.threads));
   {
@@ -208,7 +226,7 @@ Obs runCase(const Spec& s, long idx) {
     for (int t = 0; t < s.threads; ++t) th.emplace_back(body, t);
     for (auto& t : th) t.join();
     vrt::hooksReset();
-    if (g_held.load() != 0) report("harness bookkeeping: held != 0 after join", J().kv("held", g_held.load()), "harness");
+    if (g_heldP[0].load() != 0) report("harness bookkeeping: held != 0 after join", J().kv("held", g_heldP[0].load()), "harness");
     for (int i = 0; i < s.size; ++i) {
       if (g_destroyedById[i].load() != 0 || g_liveById[i].load() != 1) {
         report("a pooled resource was destroyed or duplicated while the pool is alive", J().kv("id", i).kv("live", g_liveById[i].load()).kv("destroyed", g_destroyedById[i].load()), "lifetime");
@@ -242,19 +260,227 @@ Obs runCase(const Spec& s, long idx) {
     o.c.selfAssign += c.selfAssign;
   }
   o.bad = g_bad.load();
-  o.maxHeld = g_maxHeld.load();
+  o.maxHeld = g_maxHeldP[0].load();
+  return o;
+}
+
+// ------------------------------------------------------------------ two pools of the same T
+struct Spec2 {
+  int sizeA = 1, sizeB = 1, threads = 1;
+  long ops = 100;
+  int dwellMax = 10;
+  double hookP = 0;
+  J json() const {
+    return J().kv("scenario", "two-pools").kv("sizeA", sizeA).kv("sizeB", sizeB).kv("threads", threads).kv("opsPerThread", ops).kv("dwellMaxUs", dwellMax).kv("hookP", hookP);
+  }
+};
+struct Counts2 {
+  long acquires = 0, moves = 0, withinLiveLive = 0, crossLiveLive = 0, crossLiveEmpty = 0, crossEmptyLive = 0, withinLiveEmpty = 0, withinEmptyLive = 0;
+  char pad[64];
+};
+struct Obs2 {
+  Counts2 c;
+  long bad = 0;
+  long maxHeldA = 0, maxHeldB = 0;
+};
+
+void checkAlive(int pool, int size, const char* when) {
+  for (int i = 0; i < size; ++i) {
+    int id = pool * kPoolStride + i;
+    if (g_destroyedById[id].load() != 0 || g_liveById[id].load() != 1) {
+      report(std::string("a pooled resource was destroyed or duplicated ") + when, J().kv("pool", pool).kv("id", id).kv("live", g_liveById[id].load()).kv("destroyed", g_destroyedById[id].load()), "lifetime");
+    }
+  }
+}
+void checkDestroyedOnce(int pool, int size) {
+  for (int i = 0; i < size; ++i) {
+    int id = pool * kPoolStride + i;
+    if (g_destroyedById[id].load() != 1 || g_liveById[id].load() != 0) {
+      report("resource not destroyed exactly once by its pool's destruction", J().kv("pool", pool).kv("id", id).kv("live", g_liveById[id].load()).kv("destroyed", g_destroyedById[id].load()), "lifetime");
+    }
+  }
+}
+
+Obs2 runTwoPools(const Spec2& s, long idx) {
+  Obs2 o;
+  resetMonitors(s.sizeA, s.sizeB);
+  if (s.hookP > 0) vrt::hookProb(V::kResPoolAfterAcquire, s.hookP);
+  std::vector<Counts2> counts(static_cast<size_t>(s.threads));
+  const int sizes[2] = {s.sizeA, s.sizeB};
+  {
+    int nextA = 0, nextB = kPoolStride;
+    dispenso::ResourcePool<Res> poolA(static_cast<size_t>(s.sizeA), [&nextA]() { return Res(nextA++); });
+    {
+      dispenso::ResourcePool<Res> poolB(static_cast<size_t>(s.sizeB), [&nextB]() { return Res(nextB++); });
+      dispenso::ResourcePool<Res>* pools[2] = {&poolA, &poolB};
+      checkAlive(0, s.sizeA, "during pool construction");
+      checkAlive(1, s.sizeB, "during pool construction");
+      // Only one thread at a time holds two resources (of whichever pools), and two of the same pool
+      // only if that pool has at least two: the others never wait while holding, so the program
+      // itself cannot deadlock.
+      std::atomic<int> doubleToken{0};
+      hs::SpinStart start(s.threads);
+      auto body = [&](int t) {
+        Counts2& c = counts[static_cast<size_t>(t)];
+        vrt::Rng r = vrt::caseRng(idx, 700 + static_cast<uint64_t>(t));
+        start.arriveAndWait();
+        for (long k = 0; k < s.ops; ++k) {
+          int kind = static_cast<int>(r.below(10));
+          int pa = static_cast<int>(r.below(2));
+          int pb = r.chance(0.7) ? 1 - pa : pa;
+          if (kind < 3) {
+            Handle h = acquireMonitored(*pools[pa], pa);
+            ++c.acquires;
+            hs::dwell(r, s.dwellMax);
+            beforeRelease(h);
+          } else if (kind < 4) {
+            Handle a = acquireMonitored(*pools[pa], pa);
+            ++c.acquires;
+            Handle b(std::move(a));
+            ++c.moves;
+            hs::dwell(r, s.dwellMax);
+            beforeRelease(b);
+          } else if (kind < 5) {
+            // within one pool, no second resource needed: live = empty, then nothing is held
+            Handle a = acquireMonitored(*pools[pa], pa);
+            ++c.acquires;
+            Handle b(std::move(a));
+            ++c.moves;
+            beforeRelease(b);
+            b = std::move(a);
+            ++c.withinLiveEmpty;
+          } else if (kind < 6) {
+            Handle a = acquireMonitored(*pools[pa], pa);
+            ++c.acquires;
+            Handle e(std::move(a));
+            ++c.moves;
+            a = std::move(e);
+            ++c.withinEmptyLive;
+            hs::dwell(r, s.dwellMax);
+            beforeRelease(a);
+          } else if ((pa != pb || sizes[pa] >= 2) && !doubleToken.exchange(1, std::memory_order_relaxed)) {
+            const bool cross = pa != pb;
+            int form = static_cast<int>(r.below(3));
+            Handle a = acquireMonitored(*pools[pa], pa);
+            Handle b = acquireMonitored(*pools[pb], pb);
+            c.acquires += 2;
+            hs::dwell(r, s.dwellMax);
+            if (form == 0) {
+              // live(pa) = live(pb): a's resource must go back to pool pa, a then owns pb's resource
+              beforeRelease(a);
+              a = std::move(b);
+              ++(cross ? c.crossLiveLive : c.withinLiveLive);
+              hs::dwell(r, s.dwellMax);
+              beforeRelease(a); // returns to pool pb when a dies
+            } else if (form == 1) {
+              // live(pa) = empty handle that came from pool pb
+              Handle b2(std::move(b)); // b: empty, belongs to pb
+              ++c.moves;
+              beforeRelease(b2);
+              { Handle sink(std::move(b2)); } // pb's resource goes home
+              beforeRelease(a);
+              a = std::move(b); // a's resource must go back to pa; a is empty afterwards
+              if (cross) ++c.crossLiveEmpty;
+              else ++c.withinLiveEmpty;
+            } else {
+              // empty handle that came from pool pa = live(pb)
+              Handle a2(std::move(a)); // a: empty, belongs to pa
+              ++c.moves;
+              beforeRelease(a2);
+              { Handle sink(std::move(a2)); } // pa's resource goes home
+              a = std::move(b); // a now owns pb's resource and must return it to pb
+              if (cross) ++c.crossEmptyLive;
+              else ++c.withinEmptyLive;
+              hs::dwell(r, s.dwellMax);
+              beforeRelease(a);
+            }
+            doubleToken.store(0, std::memory_order_relaxed);
+          } else {
+            Handle h = acquireMonitored(*pools[pb], pb);
+            ++c.acquires;
+            beforeRelease(h);
+          }
+          g_opsDone.fetch_add(1, std::memory_order_relaxed);
+          vrt::progress();
+        }
+      };
+      std::vector<std::thread> th;
+      for (int t = 0; t < s.threads; ++t) th.emplace_back(body, t);
+      for (auto& t : th) t.join();
+      vrt::hooksReset();
+      for (int p = 0; p < 2; ++p) {
+        if (g_heldP[p].load() != 0) report("harness bookkeeping: held != 0 after join", J().kv("pool", p).kv("held", g_heldP[p].load()), "harness");
+        checkAlive(p, sizes[p], "while the pools are alive");
+      }
+      // every pool must hand out exactly its own `size` resources again: a resource that went to
+      // the other pool shows up there with the wrong tag, and its own pool blocks here (hang verdict)
+      for (int p = 0; p < 2; ++p) {
+        std::vector<std::unique_ptr<Handle>> all;
+        for (int i = 0; i < sizes[p]; ++i) {
+          all.emplace_back(new Handle(acquireMonitored(*pools[p], p)));
+          vrt::progress();
+        }
+        for (auto& h : all) beforeRelease(*h);
+      }
+      vrt::progress();
+    } // pool B destroyed
+    checkDestroyedOnce(1, s.sizeB);
+    checkAlive(0, s.sizeA, "by the other pool's destruction");
+    vrt::progress();
+  } // pool A destroyed
+  checkDestroyedOnce(0, s.sizeA);
+  if (g_objects.load() != 0) report("pooled objects still alive after both pools were destroyed", J().kv("objects", g_objects.load()), "lifetime");
+  if (g_badMagic.load() != 0) report("destructor ran on a dead object", J().kv("n", g_badMagic.load()), "lifetime");
+  for (auto& c : counts) {
+    o.c.acquires += c.acquires;
+    o.c.moves += c.moves;
+    o.c.withinLiveLive += c.withinLiveLive;
+    o.c.crossLiveLive += c.crossLiveLive;
+    o.c.crossLiveEmpty += c.crossLiveEmpty;
+    o.c.crossEmptyLive += c.crossEmptyLive;
+    o.c.withinLiveEmpty += c.withinLiveEmpty;
+    o.c.withinEmptyLive += c.withinEmptyLive;
+  }
+  o.bad = g_bad.load();
+  o.maxHeldA = g_maxHeldP[0].load();
+  o.maxHeldB = g_maxHeldP[1].load();
   return o;
 }
 
 } // namespace
 
 void runC25() {
-  const long n = vrt::g_args.getInt("n", vrt::thorough() ? 5000 : 256);
+  const long n = vrt::g_args.getInt("n", vrt::thorough() ? 7500 : 384);
   vrt::setStateDumper(dumpState);
   vrt::watchdogIdleFlatIsHang(true);
   for (long idx = 0; idx < n; ++idx) {
     if (!vrt::selected(idx)) continue;
     vrt::Rng r = vrt::caseRng(idx);
+    if ((idx + idx / 16) % 3 == 2) {
+      // two live pools of the same T, handles moved within and across them
+      Spec2 s2;
+      s2.sizeA = static_cast<int>(r.range(1, 4));
+      s2.sizeB = static_cast<int>(r.range(1, 4));
+      s2.threads = static_cast<int>(r.range(1, 4));
+      s2.ops = r.range(30, vrt::g_args.getInt("ops", vrt::thorough() ? 400 : 150));
+      s2.dwellMax = r.pick(std::vector<int>{0, 5, 20});
+      if (r.chance(0.5)) s2.hookP = r.pick(std::vector<double>{0.1, 0.5});
+      vrt::caseBegin(idx, "two-pools/A" + std::to_string(s2.sizeA) + "B" + std::to_string(s2.sizeB), s2.json());
+      vrt::watchdogArm();
+      Obs2 o2 = runTwoPools(s2, idx);
+      vrt::watchdogDisarm();
+      std::vector<std::string> cls2{"two-pools"};
+      if (o2.c.crossLiveLive + o2.c.crossLiveEmpty + o2.c.crossEmptyLive) cls2.push_back("cross-pool-move-assign");
+      if (o2.c.crossLiveLive) cls2.push_back("cross:live=live");
+      if (o2.c.crossLiveEmpty) cls2.push_back("cross:live=empty");
+      if (o2.c.crossEmptyLive) cls2.push_back("cross:empty=live");
+      if (o2.c.withinLiveLive) cls2.push_back("two-pools:within-live=live");
+      if (o2.maxHeldA == s2.sizeA && o2.maxHeldB == s2.sizeB) cls2.push_back("two-pools:both-all-held");
+      vrt::caseEnd(J().kv("acquires", o2.c.acquires).kv("crossLiveLive", o2.c.crossLiveLive).kv("crossLiveEmpty", o2.c.crossLiveEmpty).kv("crossEmptyLive", o2.c.crossEmptyLive)
+                       .kv("withinLiveLive", o2.c.withinLiveLive).kv("maxHeldA", o2.maxHeldA).kv("maxHeldB", o2.maxHeldB).kv("bad", o2.bad),
+                   o2.c.acquires >= 4 ? s2.json().str() : "", cls2);
+      continue;
+    }
     Spec s;
     s.size = static_cast<int>(1 + (idx + idx / 16) % 4); // decorrelated from the 16-way sharding
     s.threads = static_cast<int>(r.range(1, 8));
